@@ -11,9 +11,10 @@ import (
 )
 
 // helper: the slot arithmetic and annotation codecs of helper.go.
-//   in : {"replicas": int32, "ann": null | {"k":"v",...}}
-//   out: slots (GetDeleteSlots, sorted), count/eff (GetMaxReplicaCountAndDeleteSlots),
-//        ords (GetPodOrdinals, sorted), max, min, paused
+//
+//	in : {"replicas": int32, "ann": null | {"k":"v",...}}
+//	out: slots (GetDeleteSlots, sorted), count/eff (GetMaxReplicaCountAndDeleteSlots),
+//	     ords (GetPodOrdinals, sorted), max, min, paused
 type helperIn struct {
 	Replicas int32             `json:"replicas"`
 	Ann      map[string]string `json:"ann"`
